@@ -193,6 +193,9 @@ class Play:
             sid = ctx.sm.current_state.id
             if sid != it.sid(it.state):
                 raise Fail("wrong-state", f"{what}: current_state.id is {sid!r}, expected {it.sid(it.state)!r}")
+            active = [s_["id"] for s_ in self.spec["states"] if getattr(ctx.sm, s_["id"]).is_active]
+            if active != [it.sid(it.state)]:
+                raise Fail("is-active", f"{what}: active states {active}, expected exactly [{it.sid(it.state)!r}]")
         self.invariants(ctx, what)
 
     def invariants(self, ctx, what):
@@ -365,12 +368,16 @@ class Play:
         except (Exception, asyncio.CancelledError) as e:  # whatever escapes the library is an observation (compared with the expected outcome)
             return ("exc", e)
 
-    async def call(self, fn):
+    async def call(self, fn, strict_await=False):
         if self.driver == "loop":
             try:
                 r = fn()
                 if isawaitable(r):
                     r = await r
+                elif strict_await:
+                    # inside a running loop the entry points of a machine with coroutine callbacks are awaited (docs/async.md):
+                    # `await sm.send(..)` / `await sm.activate_initial_state()` on a non-awaitable is a TypeError for the user
+                    raise TypeError(f"object {type(r).__name__} can't be used in 'await' expression")
                 return ("ok", r)
             except RecursionError as e:
                 if self.rtc:
@@ -435,7 +442,7 @@ class Play:
         self.set_val(ctx, step.get("val", {}))
         self.set_fault(ctx, self.case.get("faults", {}).get(str(self.i)))
         self._log = None
-        obs = await self.call(self.trigger_fn(ctx, step))
+        obs = await self.call(self.trigger_fn(ctx, step), strict_await=ctx.interp.is_async)
         self.after_step(self.i, step, obs, ctx)
 
     def after_step(self, i, step, obs, ctx=None):
@@ -451,7 +458,7 @@ class Play:
 
     async def op_activate(self, step):
         ctx = self.ctxs[step.get("target", "main")]
-        obs = await self.call(lambda: ctx.sm.activate_initial_state())
+        obs = await self.call(lambda: ctx.sm.activate_initial_state(), strict_await=ctx.interp.is_async)
         self.check_round(ctx, obs, lambda: ctx.interp.activate(), f"step {self.i} activate_initial_state()", ignore_result=True)
 
     async def op_attach(self, step):
@@ -650,7 +657,9 @@ def play_case(case, play_cls=Play, pid="C00"):
         try:
             rendered = render(case["spec"])
         except InvalidDefinition as e:
-            raise HarnessError(f"generator produced an invalid definition: {e}")
+            # the generators only produce definitions that are valid by C09's rules (established on the unchanged tree at many
+            # seeds): a valid machine that cannot be declared breaks every property that quantifies over valid machines
+            return outcome(False, f"{pid}:valid-definition-rejected", f"the class statement of a valid definition raised InvalidDefinition: {e}")
         if not construct_cfg_ok(case):
             try:
                 rendered.make(rtc=False, allow=case["cfg"].get("allow", False))
